@@ -435,13 +435,16 @@ type c14Oracle struct {
 	dur map[string]*time.Duration  // nil = parse error
 }
 
-func c14BodyTok(b *strings.Builder, pool []c14Node, g *config.Group) *c14Oracle {
+func c14PoolTok(b *strings.Builder, pool []c14Node) {
 	fmt.Fprintf(b, " P %d", len(pool))
 	for _, n := range pool {
 		b.WriteString(" " + c14x(n.Name) + " " + c14x(n.Tag))
 	}
+}
+
+// lines + annotations of one group; collects the regex patterns and duration strings it mentions
+func c14DefTok(b *strings.Builder, g *config.Group, pats, durs map[string]bool) {
 	fmt.Fprintf(b, " L %d", len(g.Filter))
-	pats := map[string]bool{}
 	for _, l := range g.Filter {
 		fmt.Fprintf(b, " %d", len(l))
 		for _, f := range l {
@@ -454,14 +457,16 @@ func c14BodyTok(b *strings.Builder, pool []c14Node, g *config.Group) *c14Oracle 
 		}
 	}
 	fmt.Fprintf(b, " A %d", len(g.FilterAnnotation))
-	durs := map[string]bool{}
 	for _, a := range g.FilterAnnotation {
 		c14ParamsTok(b, a)
 		for _, p := range a {
 			durs[p.Val] = true
 		}
 	}
-	// library oracles, evaluated independently of the filter code
+}
+
+// library oracles, evaluated independently of the filter code
+func c14OracleTok(b *strings.Builder, pool []c14Node, pats, durs map[string]bool) *c14Oracle {
 	subj := map[string]bool{}
 	for _, n := range pool {
 		subj[n.Name] = true
@@ -515,6 +520,25 @@ func c14BodyTok(b *strings.Builder, pool []c14Node, g *config.Group) *c14Oracle 
 		}
 	}
 	return o
+}
+
+func c14BodyTok(b *strings.Builder, pool []c14Node, g *config.Group) *c14Oracle {
+	pats, durs := map[string]bool{}, map[string]bool{}
+	c14PoolTok(b, pool)
+	c14DefTok(b, g, pats, durs)
+	return c14OracleTok(b, pool, pats, durs)
+}
+
+// several groups over one pool, in configuration order: `grps POOL n (POLICY LINES ANNOS){n} RETAB DURTAB`
+func c14MultiTok(b *strings.Builder, pool []c14Node, gs []*config.Group) *c14Oracle {
+	pats, durs := map[string]bool{}, map[string]bool{}
+	c14PoolTok(b, pool)
+	fmt.Fprintf(b, " %d", len(gs))
+	for _, g := range gs {
+		c14PolicyTok(b, g.Policy)
+		c14DefTok(b, g, pats, durs)
+	}
+	return c14OracleTok(b, pool, pats, durs)
 }
 
 // ---------------------------------------------------------------- independent oracles on the Go side
@@ -738,6 +762,34 @@ func c14Discrim(stats *VStats, o *c14Oracle, pool []c14Node, g *config.Group, ev
 }
 
 // is the definition valid (documented inputs/keys, regexes compile, annotations well formed)?
+// c14OnlyKeywordOnSubtag: the definition is invalid ONLY because `keyword:` is used on `subtag(...)`
+// (the one relaxation whose meaning is obvious: substring of the tag — which is what c14Spec computes).
+func c14OnlyKeywordOnSubtag(o *c14Oracle, g *config.Group) bool {
+	if c14Valid(o, g) {
+		return false
+	}
+	g2 := *g
+	g2.Filter = nil
+	for _, line := range g.Filter {
+		var l2 []*config_parser.Function
+		for _, f := range line {
+			f2 := *f
+			if f.Name == "subtag" {
+				f2.Params = nil
+				for _, p := range f.Params {
+					if p.Key == "keyword" {
+						continue
+					}
+					f2.Params = append(f2.Params, p)
+				}
+			}
+			l2 = append(l2, &f2)
+		}
+		g2.Filter = append(g2.Filter, l2)
+	}
+	return c14Valid(o, &g2)
+}
+
 func c14Valid(o *c14Oracle, g *config.Group) bool {
 	for _, line := range g.Filter {
 		for _, f := range line {
@@ -1328,5 +1380,85 @@ func c14GroupStats(stats *VStats, gr string) {
 				stats.Inc("group.fixed_selected")
 			}
 		}
+	}
+}
+
+// duration strings for the mirrored time.ParseDuration: well-formed multi-term values, every unit,
+// fractions (long, leading/trailing dot), int64 edges, and near misses.
+func c14GenDur(r *VRand, stats *VStats) string {
+	units := []string{"ns", "us", "µs", "μs", "ms", "s", "m", "h"}
+	num := func() string {
+		switch r.Intn(10) {
+		case 0:
+			return "0"
+		case 1:
+			return fmt.Sprint(r.U64() % 1000000007)
+		case 2:
+			return fmt.Sprint(r.U64()) // up to 2^64: overflow of leadingInt
+		case 3:
+			return c14Pick(r, []string{"9223372036854775807", "9223372036854775808", "9223372036854775809", "922337203685477580", "922337203685477581", "2562047", "2562048", "153722867", "153722868"})
+		case 4:
+			return "00" + fmt.Sprint(r.Intn(100))
+		default:
+			return fmt.Sprint(r.Intn(3000))
+		}
+	}
+	frac := func() string {
+		switch r.Intn(8) {
+		case 0:
+			return "."
+		case 1:
+			return "." + strings.Repeat(fmt.Sprint(r.Intn(10)), 18+r.Intn(12)) // precision overflow
+		case 2:
+			return "." + c14Pick(r, []string{"854775807", "854775808", "999999999", "000000001", "5", "25", "3333333333333333333", "9223372036854775808"})
+		case 3, 4:
+			return "." + fmt.Sprint(r.Intn(1000000))
+		default:
+			return ""
+		}
+	}
+	term := func() string {
+		switch r.Intn(12) {
+		case 0:
+			return frac() + c14Pick(r, units) // maybe no digits at all
+		default:
+			return num() + frac() + c14Pick(r, units)
+		}
+	}
+	switch k := r.Intn(20); {
+	case k == 0:
+		stats.Inc("dur.literal_edge")
+		return c14Pick(r, append(append([]string{}, c14GoodDur...), append(c14BadDur, "2562047h47m16.854775807s", "2562047h47m16.854775808s",
+			"-2562047h47m16.854775808s", "-2562047h47m16.854775809s", "+", "-", "+0", "-0", "00", "0.0", ".", ".s", "1.h", "1h.", "1 h", "1H", "1hh", "1sm", "1m s",
+			"1µs1μs1us", "1\xc2s", "1\xb5s", "١s", "1e3ms", "0x1s", "1_0s", "3.3333333333333333333h", "0.1h", "1.000000000000000000000000001s")...))
+	case k < 3:
+		stats.Inc("dur.near_miss")
+		t := term()
+		switch r.Intn(6) {
+		case 0:
+			return num() // missing unit
+		case 1:
+			return t + num() // trailing number without unit
+		case 2:
+			return t + c14Pick(r, []string{"d", "S", "sec", "min", "hs", "n", "u", "µ", " "}) // unknown unit
+		case 3:
+			return " " + t
+		case 4:
+			return c14Pick(r, []string{"--", "++", "+-"}) + t
+		default:
+			return t + "." // "1s." : a term ".": no digits
+		}
+	default:
+		stats.Inc("dur.well_formed")
+		n := 1 + r.Intn(3)
+		if r.Chance(0.1) {
+			n = 4 + r.Intn(4)
+		}
+		sgn := c14Pick(r, []string{"", "", "", "-", "+"})
+		o := sgn
+		for i := 0; i < n; i++ {
+			o += term()
+		}
+		return o
 	}
 }
